@@ -13,6 +13,7 @@ RETAB  := R n (pat ok nm (subject 0|1){nm}){n}
 DURTAB := D n (val ok int){n}
 POLICY := PS str | PF FUNC | PL n FUNC{n} | PO
 grps POOL n (POLICY LINES ANNOS){n} RETAB DURTAB
+cfg  POOL n (NAME POLICY LINES ANNOS){n} RETAB DURTAB
 dur str
 ```
 strings are `x<hex>`.
@@ -162,6 +163,18 @@ def policyStr : Policy → String
   | .minMovingAvg => "min_moving_avg"
   | .minLast => "min"
 
+/-- the latency offsets every alive set of the group holds, member by member (`none` for `fixed`:
+no alive sets; `?` = a member without an entry) -/
+def offStr (g : Group) : String :=
+  match groupOffsetTable g with
+  | none => "none"
+  | some t =>
+    if g.members.isEmpty then "-"
+    else ",".intercalate (g.members.map fun m =>
+      match mapGet t m.1 with
+      | some v => s!"{m.1}:{v}"
+      | none => s!"{m.1}:?")
+
 def handleFa (ts : List String) : Option String := do
   let (pool, ts) ← pPool ts
   let (lines, ts) ← pLines ts
@@ -196,7 +209,7 @@ def handleGrp (ts : List String) : Option String := do
         | .error .emptyGroup => "empty"
         | .error .outOfRange => "range"
       | _ => "-"
-    pure s!"ok pol={policyStr g.policy} members={membersStr g.members} sel={sel}"
+    pure s!"ok pol={policyStr g.policy} members={membersStr g.members} sel={sel} off={offStr g}"
 
 def pGroupDef : P GroupDef := fun ts => do
   let (pv, ts) ← pPolicy ts
@@ -213,7 +226,7 @@ def groupStr (g : Group) : String :=
       | .error .emptyGroup => "empty"
       | .error .outOfRange => "range"
     | _ => "-"
-  s!"pol={policyStr g.policy} members={membersStr g.members} sel={sel}"
+  s!"pol={policyStr g.policy} members={membersStr g.members} sel={sel} off={offStr g}"
 
 /-- `grps POOL n (POLICY LINES ANNOS){n} RETAB DURTAB`: the whole group loop over one pool. -/
 def handleGrps (ts : List String) : Option String := do
@@ -225,6 +238,27 @@ def handleGrps (ts : List String) : Option String := do
   | .error (.policy e) => pure ("perr " ++ perrStr e)
   | .error (.filter e) => pure ("ferr " ++ errStr e)
   | .ok gs => pure ("ok " ++ " | ".intercalate (gs.map groupStr))
+
+def pNamedDef : P NamedDef := fun ts => do
+  let (nm, ts) ← pStr ts
+  let (d, ts) ← pGroupDef ts
+  pure (⟨nm, d⟩, ts)
+
+/-- `cfg POOL n (NAME POLICY LINES ANNOS){n} RETAB DURTAB`: the group loop AND the outbound table
+(count limit, duplicate names, name → id). -/
+def handleCfg (ts : List String) : Option String := do
+  let (pool, ts) ← pPool ts
+  let (defs, ts) ← counted pNamedDef ts
+  let (O, ts) ← pOracle ts
+  if !ts.isEmpty then none
+  match buildConfig O pool defs with
+  | .error (.group (.policy e)) => pure ("perr " ++ perrStr e)
+  | .error (.group (.filter e)) => pure ("ferr " ++ errStr e)
+  | .error (.tooMany n) => pure s!"gerr toomany {n}"
+  | .error (.dupName nm) => pure ("gerr dup " ++ hx nm)
+  | .ok (gs, m) =>
+    let ids := ",".intercalate (m.map fun e => s!"{hx e.1}:{e.2}")
+    pure ("ok " ++ " | ".intercalate (gs.map groupStr ++ ["ids=" ++ ids]))
 
 /-- `dur x<hex>`: the mirrored `time.ParseDuration`. -/
 def handleDur (ts : List String) : Option String := do
@@ -239,6 +273,7 @@ def handle (line : String) : String :=
   | "fa" :: ts => (handleFa ts).getD "bad-op"
   | "grp" :: ts => (handleGrp ts).getD "bad-op"
   | "grps" :: ts => (handleGrps ts).getD "bad-op"
+  | "cfg" :: ts => (handleCfg ts).getD "bad-op"
   | "dur" :: ts => (handleDur ts).getD "bad-op"
   | _ => "bad-op"
 
